@@ -253,7 +253,7 @@ func Convert(value any, typ reflect.Type) (any, error) { //nolint: gocyclo
 				return strconv.FormatFloat(value, 'f', -1, 64), nil
 			}
 		}
-		return fmt.Sprint(value), nil
+		return fmt.Sprint(ResolveDrops(value)), nil
 	}
 	return nil, conversionError("", value, typ)
 }
